@@ -58,14 +58,14 @@ def prepare(repo, scratch, groups, release=False, contracts=None, with_derive=Fa
 RE_HARNESS = re.compile(r'Checking harness ([\w:]+)\.\.\.')
 
 
-def run(copy, harnesses, jobs=8, timeout=3000, extra=None, target_dir=None, unwind=None):
+def run(copy, harnesses, jobs=8, timeout=3000, extra=None, target_dir=None, unwind=None, harness_timeout=600):
     """Run the listed harnesses (full paths or unique names). Returns dict name -> result."""
     env = dict(os.environ)
     env['CARGO_NET_OFFLINE'] = 'true'
     if target_dir:
         env['CARGO_TARGET_DIR'] = target_dir
     cmd = ['cargo', 'kani', '-p', 'pest_typed', '-Z', 'function-contracts', '-Z', 'stubbing', '-Z', 'loop-contracts',
-           '--output-format', 'terse', '-j', str(jobs)]
+           '--output-format', 'terse', '-j', str(jobs), '-Z', 'unstable-options', '--harness-timeout', '%ds' % harness_timeout]
     for h in harnesses:
         cmd += ['--harness', h]
     if unwind:
@@ -109,7 +109,7 @@ def run(copy, harnesses, jobs=8, timeout=3000, extra=None, target_dir=None, unwi
             status = 'ok'
         elif 'VERIFICATION:- FAILED' in part:
             status = 'failed'
-            if 'out of memory' in part or ('CBMC failed' in part and 'Failed Checks' not in part) or 'CBMC timed out' in part:
+            if 'out of memory' in part or ('CBMC failed' in part and 'Failed Checks' not in part) or 'timed out' in part.lower():
                 status = 'undecided'
         failed_checks = re.findall(r'Failed Checks: (.*)', part)
         unwind_fail = any('unwinding assertion' in c for c in failed_checks)
